@@ -1,5 +1,7 @@
 //! C13 end-to-end: `e2e spec n=<nodes> sh=<shards, 0 = unsharded> idem=<0|1> max=<speculative executions>
-//! iv=<interval ms> slow=<page 0|1|2> kind=<query|exec> lb=<default|st:<node>:<shard|->> seed=<s>`
+//! iv=<interval ms> slow=<page 0|1|2> kind=<query|exec> lb=<default|st:<node>:<shard|->> api=<iter|unpaged|batch>
+//! order=<node:shard|-,...> seed=<s>` (`api`: the paged stream, or ONE unpaged query/execute, or a BATCH - `slow=0`;
+//! `order`: a scripted in-order load-balancing policy, see `run_pplan`)
 //!
 //! A real `Session` with a `SimpleSpeculativeExecutionPolicy { max, iv }` and the Fallthrough retry policy pages through
 //! three pages (`Session::query_iter` / `execute_iter`, i.e. the real `PagingExecutor::fetch_one_page`: page 0 over the
@@ -76,6 +78,35 @@ pub fn generate(rng: &mut Rng, tier: Tier, emit: &mut dyn FnMut(String)) {
         }
     }
     drop(emit_one);
+    // the non-paged session APIs and BATCH: idempotence must reach the gate from the statement / the batch itself
+    {
+        let mut k = 0u64;
+        for api in ["batch", "unpaged"] {
+            for idem in [0u64, 1] {
+                for kind in ["query", "exec"] {
+                    if api == "batch" && kind == "exec" {
+                        continue;
+                    }
+                    emit(format!("e2e spec n=3 sh={} idem={} max=2 iv=25 slow=0 kind={} api={} seed={}", if k % 3 == 2 { 2 } else { 0 }, idem, kind, api, seed + 20 + k));
+                    k += 1;
+                }
+            }
+        }
+        if tier == Tier::Thorough {
+            for _ in 0..24 {
+                emit(format!(
+                    "e2e spec n={} sh={} idem={} max={} iv=25 slow=0 kind={} api={} seed={}",
+                    1 + rng.below(4),
+                    *rng.pick(&[0u64, 0, 2]),
+                    rng.below(2),
+                    1 + rng.below(3),
+                    *rng.pick(&["query", "exec"]),
+                    *rng.pick(&["batch", "unpaged", "unpaged"]),
+                    rng.below(1 << 32)
+                ));
+            }
+        }
+    }
     if tier == Tier::Thorough {
         for _ in 0..20 {
             let n = 1 + rng.below(3);
@@ -103,6 +134,17 @@ pub fn generate(rng: &mut Rng, tier: Tier, emit: &mut dyn FnMut(String)) {
 type Seen = (usize, usize, Option<u16>);
 
 pub fn run(words: &[&str], ctx: &mut Ctx) -> String {
+    run_mode(words, ctx, false)
+}
+
+/// `pplan ...` (dispatched from c13.rs, NOT an `e2e` line, so the Lean driver runs `pagerPlan` on it): the same run with a
+/// scripted in-order load-balancing policy (`order=<node>:<shard|->,...`: `pick` = the first entry, `fallback` = all of
+/// them), printing the (node, shard) of every request of every page in arrival order: `pages=<t,t,..>/<..>/<..>`.
+pub fn run_pplan(words: &[&str], ctx: &mut Ctx) -> String {
+    run_mode(words, ctx, true)
+}
+
+fn run_mode(words: &[&str], ctx: &mut Ctx, detail: bool) -> String {
     let Some(p) = Params::parse(words) else { return "bad-case".into() };
     let (Some(n), Some(sh), Some(idem), Some(max), Some(iv), Some(slow), Some(seed)) = (
         p.num("n"),
@@ -117,6 +159,35 @@ pub fn run(words: &[&str], ctx: &mut Ctx) -> String {
     };
     let kind = p.str("kind").unwrap_or("exec");
     // load balancing: the default policy, or `st:<node>:<shard|->` = SingleTargetLoadBalancingPolicy
+    // api: `iter` (paged stream, default), `unpaged` (query_unpaged / execute_unpaged by `kind`), `batch` (a BATCH whose
+    // statements carry the OPPOSITE idempotence flag: only `batch.set_is_idempotent` counts)
+    let api = p.str("api").unwrap_or("iter");
+    if !["iter", "unpaged", "batch"].contains(&api) || (api != "iter" && slow != 0) {
+        return "bad-case".into();
+    }
+    let order: Option<Vec<(usize, Option<u32>)>> = match p.str("order") {
+        None => None,
+        Some(o) => {
+            let v: Option<Vec<(usize, Option<u32>)>> = o
+                .split(',')
+                .map(|t| {
+                    let (k, s) = t.split_once(':')?;
+                    let k = k.parse::<usize>().ok()?;
+                    if k >= n as usize {
+                        return None;
+                    }
+                    Some((k, if s == "-" { None } else { Some(s.parse::<u32>().ok()?) }))
+                })
+                .collect();
+            match v {
+                Some(v) if !v.is_empty() && v.len() <= 8 => Some(v),
+                _ => return "bad-case".into(),
+            }
+        }
+    };
+    if detail && order.is_none() {
+        return "bad-case".into();
+    }
     let lb = p.str("lb").unwrap_or("default");
     let single: Option<(usize, Option<u32>)> = if lb == "default" {
         None
@@ -155,10 +226,15 @@ pub fn run(words: &[&str], ctx: &mut Ctx) -> String {
     let seen: Arc<Mutex<Vec<Seen>>> = Arc::new(Mutex::new(Vec::new()));
     let (seen_h, pages_h, states_h) = (Arc::clone(&seen), pages.clone(), states.clone());
     let slow_page = slow as usize;
+    let unpaged = api != "iter";
     let handler = with_std_prepare(move |r: &Req| {
         let params = match &r.parsed {
             Parsed::Query { text, params } if text == SELECT_ALL => params,
             Parsed::Execute { params, .. } => params,
+            Parsed::Batch { .. } => {
+                seen_h.lock().unwrap().push((0, r.node, r.shard));
+                return if slow_page == 0 { vec![Act::Delay(hold), act_void()] } else { vec![act_void()] };
+            }
             _ => return vec![act_void()],
         };
         let j = match &params.paging_state {
@@ -170,7 +246,8 @@ pub fn run(words: &[&str], ctx: &mut Ctx) -> String {
         };
         seen_h.lock().unwrap().push((j, r.node, r.shard));
         let rows: Vec<Vec<Cell>> = pages_h[j].iter().map(|i| vec![Some(i.to_be_bytes().to_vec()), c_int(*i)]).collect();
-        let resp = Act::Respond(RESP_RESULT, rows_body(&row_specs(), !params.skip_metadata, states_h.get(j).map(|s| &s[..]), &rows));
+        let next_state = if unpaged { None } else { states_h.get(j).map(|s| &s[..]) };
+        let resp = Act::Respond(RESP_RESULT, rows_body(&row_specs(), !params.skip_metadata, next_state, &rows));
         if j == slow_page { vec![Act::Delay(hold), resp] } else { vec![resp] }
     });
     let rt = runtime(2);
@@ -178,6 +255,11 @@ pub fn run(words: &[&str], ctx: &mut Ctx) -> String {
         use scylla::statement::unprepared::Statement;
         let cluster = MockCluster::start(shape.topology(), handler).await;
         let mut builder = ExecutionProfile::builder();
+        if let Some(order) = &order {
+            use crate::c13_lbscript::{NodeKey, ScriptedLb};
+            let key = |e: &(usize, Option<u32>)| (NodeKey::Addr(cluster.addr(e.0)), e.1);
+            builder = builder.load_balancing_policy(Arc::new(ScriptedLb { pick: order.first().map(key), fallback: order.iter().map(key).collect() }));
+        }
         if let Some((k, shard)) = single {
             if k >= n {
                 return "bad-case".to_owned();
@@ -200,6 +282,55 @@ pub fn run(words: &[&str], ctx: &mut Ctx) -> String {
             Ok(s) => s,
             Err(skip) => return skip,
         };
+        if api != "iter" {
+            // unpaged APIs: one request; the reply is held, so every execution the policy may start is started
+            let res: Result<(), String> = if api == "batch" {
+                use scylla::statement::batch::{Batch, BatchType};
+                let mut batch = Batch::new(BatchType::Logged);
+                for _ in 0..2 {
+                    let mut st = Statement::new(INSERT);
+                    st.set_is_idempotent(idem == 0); // the opposite of the batch's flag
+                    batch.append_statement(st);
+                }
+                batch.set_is_idempotent(idem != 0);
+                session.batch(&batch, ((vec![1u8], 1i32), (vec![2u8], 2i32))).await.map(|_| ()).map_err(|e| e.to_string())
+            } else if kind == "query" {
+                let mut st = Statement::new(SELECT_ALL);
+                st.set_is_idempotent(idem != 0);
+                session.query_unpaged(st, ()).await.map(|_| ()).map_err(|e| e.to_string())
+            } else {
+                match session.prepare(SELECT_ALL).await {
+                    Err(_) => return "e2e-skip prepare-failed".to_owned(),
+                    Ok(mut ps) => {
+                        ps.set_is_idempotent(idem != 0);
+                        session.execute_unpaged(&ps, ()).await.map(|_| ()).map_err(|e| e.to_string())
+                    }
+                }
+            };
+            tokio::time::sleep(Duration::from_millis(20)).await;
+            let seen = seen.lock().unwrap().clone();
+            let what = format!("n={} sh={} idem={} max={} api={} kind={} lb={} seen(page,node,shard)={:?}", n, sh, idem, max, api, kind, lb, seen);
+            if let Err(e) = res {
+                ctx.fail(format!("e2e spec: the unpaged request failed ({}); {}", e.replace(['\n', '\t'], " "), what));
+            }
+            if seen.len() as u64 > 1 + max {
+                ctx.fail(format!("e2e spec: {} requests, the policy allows 1 + {}; {}", seen.len(), max, what));
+            }
+            if idem == 0 && seen.len() != 1 {
+                ctx.fail(format!(
+                    "e2e spec: a request that is not idempotent ({} API) was sent {} times - in flight on several nodes at once; {}",
+                    api, seen.len(), what
+                ));
+            }
+            for a in 0..seen.len() {
+                for b in a + 1..seen.len() {
+                    if seen[a].1 == seen[b].1 && (sh == 0 || seen[a].2 == seen[b].2) {
+                        ctx.fail(format!("e2e spec: two executions used the same plan target (node {}, shard {:?}); {}", seen[a].1, seen[a].2, what));
+                    }
+                }
+            }
+            return format!("spec {} requests={} {}", api, seen.len(), "end");
+        }
         let pager = if kind == "query" {
             let mut st = Statement::new(SELECT_ALL);
             st.set_is_idempotent(idem != 0);
@@ -284,6 +415,17 @@ pub fn run(words: &[&str], ctx: &mut Ctx) -> String {
                     }
                 }
             }
+        }
+        if detail {
+            let page = |j: usize| {
+                let t: Vec<String> = seen
+                    .iter()
+                    .filter(|s| s.0 == j)
+                    .map(|s| format!("{}:{}", s.1, s.2.map(|x| x.to_string()).unwrap_or_else(|| "-".to_owned())))
+                    .collect();
+                if t.is_empty() { "-".to_owned() } else { t.join(",") }
+            };
+            return format!("pages={}/{}/{}", page(0), page(1), page(2));
         }
         format!("spec rows={} requests={} {}", got.len(), per_page.iter().map(|c| c.to_string()).collect::<Vec<_>>().join("."), if failed { "err" } else { "end" })
     })
